@@ -28,19 +28,33 @@ var (
 )
 
 type c02Case struct {
-	Part string `json:"part"` // structure | attr | text | doc | interp-text | interp-attr | bound | vhtml
-	Src  string `json:"src"`
-	Val  string `json:"val,omitempty"` // name of the interpolated value
-	L    string `json:"l,omitempty"`
-	R    string `json:"r,omitempty"`
+	Part  string `json:"part"` // structure | attr | text | doc | interp-text | interp-attr | bound | vhtml
+	Src   string `json:"src"`
+	Val   string `json:"val,omitempty"` // name of the interpolated value
+	L     string `json:"l,omitempty"`
+	R     string `json:"r,omitempty"`
+	Shape string `json:"shape,omitempty"` // document shape (doc part)
 }
 
 func (c *c02Case) Key() string { return c.Part + "|" + c.Src + "|" + c.Val }
 
 var c02Opts = htmlcmp.Options{Values: true, RawText: true, KeepDoctype: true}
 
-func c02Norm(src string) []htmlcmp.El {
-	els := htmlcmp.Project(htmlcmp.Parse(src), c02Opts)
+// c02IsDoc: the template source is a full document (decided on the source alone, not with
+// vuego's own "</html>" heuristic); source and output are then both parsed as documents.
+func c02IsDoc(src string) bool {
+	l := strings.ToLower(src)
+	return strings.Contains(l, "<html") || strings.Contains(l, "<!doctype")
+}
+
+func c02Norm(src string) []htmlcmp.El { return c02NormAs(src, c02IsDoc(src)) }
+
+func c02NormAs(src string, doc bool) []htmlcmp.El {
+	nodes := htmlcmp.ParseFragment(src)
+	if doc {
+		nodes = htmlcmp.ParseDocument(src)
+	}
+	els := htmlcmp.Project(nodes, c02Opts)
 	for i := range els {
 		for j := range els[i].Attrs {
 			// leading/trailing whitespace of attribute values is treated as insignificant
@@ -52,7 +66,10 @@ func c02Norm(src string) []htmlcmp.El {
 
 // c02Stable: the HTML5 parser's own serialisation re-parses to the same tree.
 func c02Stable(src string) bool {
-	nodes := htmlcmp.Parse(src)
+	nodes := htmlcmp.ParseFragment(src)
+	if c02IsDoc(src) {
+		nodes = htmlcmp.ParseDocument(src)
+	}
 	var buf bytes.Buffer
 	for _, n := range nodes {
 		if err := xhtml.Render(&buf, n); err != nil {
@@ -148,10 +165,14 @@ func (c *c02Case) Run(ctx *core.Ctx) {
 			ctx.Violation("render-error", c.Part, "static", fmt.Sprintf("src %q: %v", c.Src, err))
 			return
 		}
-		want, got := c02Norm(c.Src), c02Norm(out)
+		isDoc := c02IsDoc(c.Src)
+		want, got := c02NormAs(c.Src, isDoc), c02NormAs(out, isDoc)
 		if where, trig := c02Diff(got, want); where != "" {
+			if c.Part == "doc" {
+				where, trig = c.Shape+":"+where, trig
+			}
 			// cause-based classification: the serialiser writes <br></br>, which HTML5 parses as two breaks
-			if w2, _ := c02Diff(c02Norm(strings.ReplaceAll(out, "</br>", "")), want); w2 == "" {
+			if w2, _ := c02Diff(c02NormAs(strings.ReplaceAll(out, "</br>", ""), isDoc), want); w2 == "" {
 				where, trig = "void-br-doubled", "br"
 			}
 			ctx.Violation("roundtrip", where, trig, fmt.Sprintf("src %q\n out %q\n got: %s\nwant: %s", c.Src, out, oneLine(htmlcmp.String(got)), oneLine(htmlcmp.String(want))))
@@ -338,12 +359,37 @@ func c02Enumerate(tier string, emit func(core.Case)) {
 	// (iv) documents
 	bodies := []string{"<p>t</p>", "<div class=\"a\"><span>x</span></div>", "t", "<p>&amp;</p><hr>", "<table><tr><td>x</td></tr></table>", "<script>var a = 1 < 2;</script><p>x</p>"}
 	heads := []string{"", "<title>T</title>", "<title>a &amp; b</title><style>p{color:red}</style>", `<meta charset="utf-8"><link rel="x" href="y">`}
-	for _, dt := range []string{"", "<!DOCTYPE html>", "<!doctype html>\n"} {
-		for _, h := range heads {
-			for _, b := range bodies {
-				for _, lang := range []string{"", ` lang="en"`} {
-					emit(&c02Case{Part: "doc", Src: fmt.Sprintf("%s<html%s><head>%s</head><body>%s</body></html>", dt, lang, h, b)})
+	// document shapes: what surrounds and separates the parts of the document
+	type shape struct{ name, pre, sep, bodyAttr, post string }
+	shapes := []shape{
+		{"plain", "", "", "", ""},
+		{"pretty", "", "\n", "", "\n"},
+		{"body-attr", "", "", ` class="main" id="b"`, ""},
+		{"trailing-comment", "", "\n", "", "\n<!-- generated -->\n"},
+		{"trailing-comment-tight", "", "", "", "<!-- g -->"},
+		{"leading-comment", "<!-- lead -->\n", "", "", ""},
+		{"leading-ws", "\n  ", "", "", "  \n\n"},
+		{"both-comments", "<!-- a -->", "\n", ` class="main"`, "<!-- b -->"},
+	}
+	for _, sh := range shapes {
+		for _, dt := range []string{"", "<!DOCTYPE html>", "<!doctype html>\n"} {
+			for _, h := range heads {
+				for _, b := range bodies {
+					for _, lang := range []string{"", ` lang="en"`} {
+						src := sh.pre + dt + sh.sep + "<html" + lang + ">" + sh.sep + "<head>" + h + "</head>" + sh.sep + "<body" + sh.bodyAttr + ">" + b + "</body>" + sh.sep + "</html>" + sh.post
+						emit(&c02Case{Part: "doc", Shape: sh.name, Src: src})
+					}
 				}
+			}
+		}
+	}
+	// documents whose end tags are omitted or written in upper case (both legal HTML)
+	for _, dt := range []string{"", "<!DOCTYPE html>"} {
+		for _, b := range bodies {
+			for _, lang := range []string{"", ` lang="en"`} {
+				emit(&c02Case{Part: "doc", Shape: "no-end-tags", Src: dt + "<html" + lang + "><head><title>T</title></head><body class=\"m\">" + b})
+				emit(&c02Case{Part: "doc", Shape: "upper-case", Src: dt + "<HTML" + lang + "><HEAD><TITLE>T</TITLE></HEAD><BODY CLASS=\"m\">" + b + "</BODY></HTML>"})
+				emit(&c02Case{Part: "doc", Shape: "no-html-end", Src: dt + "<html" + lang + "><head><title>T</title></head><body class=\"m\">" + b + "</body>"})
 			}
 		}
 	}
